@@ -156,7 +156,10 @@ class Env:
     def log(self, tag, *data):
         self.events.append((next_seq(), tag) + data)
 
+    run_index = 0
+
     def reset_for_rerun(self):
+        self.run_index += 1
         self.events = []
         self.raised = []
         self.onexc_calls = []
@@ -362,6 +365,16 @@ def run_actions(env, case, actions, where):
                                          lambda cell=cell: [env.cells[cell]]))
         elif op == "setcell":
             env.cells[a[1]] = bytes.fromhex(a[2])
+        elif op == "seq":
+            r = run_actions(env, case, a[1], where)
+            if r is not None:
+                return r
+        elif op == "first_run_only":
+            # behaviour that differs between two runs of the same instance (a flaky test, say)
+            if env.run_index == 0:
+                r = run_actions(env, case, a[1], where)
+                if r is not None:
+                    return r
         elif op == "peek":
             # somebody looks at the details collected so far (a handler dumping them, say)
             for content_object in list(case.getDetails().values()):
